@@ -65,7 +65,7 @@ func asmContracts(arch string) map[string]*xContract {
 }
 
 func checkC11(c *Ctx, r *Report) {
-	r.Explanation = "Assume-guarantee over the Go/assembler boundary. EXTENT (A4): for every reachable assembler routine on amd64 and arm64, an abstract interpretation of the general registers over affine forms with branch facts, loop induction variables and quotient/remainder symbols gives the byte extent of every memory access relative to its parameter base; each must lie inside the routine's contract (bytes guaranteed behind each pointer as a function of the length parameters) on every path; streamed parameters must be consumed exactly (CONSUMPTION: the pointer ends at base+len on every path — a necessary condition for 'every input byte is processed'). CALLSITE (G3): every Go call of a body-less function passes arguments that guarantee the contract under the guards that dominate the call (&x[i] guarantees len(x)-i elements; nil guarantees 0 bytes). L-RESLICE: no API method reslices a parameter beyond its length without a dominating length guard (the silent read-past-len idiom). ALIGNED-ONLY: no aligned-only opcode has a memory operand. Together: arguments too short cause a panic, never a silent out-of-range access."
+	r.Explanation = "Assume-guarantee over the Go/assembler boundary. EXTENT (A4): for every reachable assembler routine on amd64 and arm64, an abstract interpretation of the general registers over affine forms with branch facts, loop induction variables and quotient/remainder symbols gives the byte extent of every memory access relative to its parameter base; each must lie inside the routine's contract (bytes guaranteed behind each pointer as a function of the length parameters) on every path; CALLSITE (G3): every Go call of a body-less function passes arguments that guarantee the contract under the guards that dominate the call (&x[i] guarantees len(x)-i elements; nil guarantees 0 bytes). L-RESLICE: no API method reslices a parameter beyond its length without a dominating length guard (the silent read-past-len idiom). ALIGNED-ONLY: no aligned-only opcode has a memory operand. Together: arguments too short cause a panic, never a silent out-of-range access."
 	r.Trusted = []string{"go tool asm -S listing", "opcode table (access widths)", "g.tagSize is in [12,16] when Seal/Open run: crypto/cipher validates the tag size before calling NewGCM and Open re-checks the lower bound", "go/ssa"}
 	for _, arch := range []string{"amd64", "arm64"} {
 		u, p := loadAsmBound(c, r, arch)
@@ -132,20 +132,7 @@ func checkC11(c *Ctx, r *Report) {
 				r.Viol("EXTENT", fmt.Sprintf("%s#%d", k, ord[k]), acc.instr.Pos, fmt.Sprintf("%d-byte %s %s the bytes guaranteed for its parameter: %s — %s", acc.width, dir, what, acc.instr.Raw, acc.detail))
 			}
 			r.Ok("EXTENT", key, "sm4/"+rt.File, fmt.Sprintf("%d memory accesses proved inside their parameter's contract on every path (%d path states at most)", nOK, res.maxStates))
-			for _, o := range res.consumption {
-				r.Obls = append(r.Obls, o)
-			}
-			for pn := range con.consumeSet {
-				found := false
-				for _, o := range res.consumption {
-					if strings.HasSuffix(o.Key, ": "+pn) {
-						found = true
-					}
-				}
-				if !found {
-					r.Viol("CONSUMPTION", fmt.Sprintf("%s/%s: %s", arch, rt.Name, pn), "sm4/"+rt.File, "streamed parameter is never advanced to its end on any path: its bytes are not all processed")
-				}
-			}
+			// CONSUMPTION obligations (a functional necessary condition, not a memory-safety one) are reported under C07 and C10
 		}
 		c11CallSites(r, p, arch, contracts)
 	}
